@@ -28,7 +28,7 @@ W = {
     "tcsh_brace": [case("tcsh", [], word="a{", msgs=["m"]), case("tcsh", ["a{b}c"]), case("tcsh", ["{"], word="{")],
     "oil_unquoted": [case("oil", [], word="a\\b", msgs=["m"]), case("oil", ["a b"]), case("oil", ["a\\b"]), case("oil", ["a b/"], nospace="/")],
     "nushell_tab": [case("nushell", ["a\tb"]), case("nushell", ["a\t"], nospace="*")],
-    "powershell_squote": [case("powershell", [], word="it's", msgs=["m"]), case("powershell", ["it's here"]), case("powershell", ["it's"]), case("powershell", ["a'b/"], nospace="/")],
+    "powershell_squote": [case("powershell", [], word="it's", msgs=["m"]), case("powershell", ["it's here"]), case("powershell", ["it's"]), case("powershell", ["a'b/"], nospace="/"), case("powershell", ["'b'"])],
     "powershell_cr": [case("powershell", ["a\rb"]), case("powershell", [("ab", "a\rb", "")])],
     "xonsh_squote": [case("xonsh", [], word="it's", msgs=["m"]), case("xonsh", ["it's"])],
     "xonsh_trailing_backslash": [case("xonsh", [], word="a b\\", msgs=["m"]), case("xonsh", ["dir\\"])],
